@@ -207,10 +207,13 @@ def run_component(c, res):
             bad.append((clause, detail, ic, exc))
 
     def check(where):
-        try:
-            ob._check_invariants()
-        except AssertionError:
-            V("invariant", "Outbound._check_invariants failed after %r" % (where,), "check-invariants-fired")
+        # the code's own self-check, when this tree has one under that name (an extra, not the oracle)
+        ci = getattr(ob, "_check_invariants", None)
+        if ci is not None:
+            try:
+                ci()
+            except AssertionError:
+                V("invariant", "Outbound._check_invariants failed after %r" % (where,), "check-invariants-fired")
         blocked = transport_blocked()
         for p in producers.values():
             if p.kind != "push":
